@@ -199,11 +199,11 @@ PROPS = {
         "jobs": [{"test": "TestC06", "kind": "rapid", "quick": 60000, "thorough": 1000000},
                  {"test": "TestC06Known", "kind": "plain", "shards": 1}],
         "fuzz": [{"fuzz": "FuzzSML", "budget_s": 240}],
-        "floors": {"origin:soup": ("job:TestC06", 0.3), "origin:nesting": ("job:TestC06", 0.05), "origin:valid-text": ("job:TestC06", 0.1), "origin:mutated-valid-text": ("job:TestC06", 0.1),
+        "floors": {"origin:soup": ("job:TestC06", 0.2), "origin:hostile-tail": ("job:TestC06", 0.05), "origin:nesting": ("job:TestC06", 0.05), "origin:valid-text": ("job:TestC06", 0.1), "origin:mutated-valid-text": ("job:TestC06", 0.1),
                    "outcome:accepted": ("job:TestC06", 0.1), "outcome:errors": ("job:TestC06", 0.3)},
         "rule": "strings up to 64 KiB: token soups over the SML vocabulary with hostile fragments (20-40 digit numbers in stream/function/sizes/literals, every Unicode space in every "
                 "position, invalid UTF-8, NUL, unclosed quotes and brackets, duplicated variables with and without huge sizes), nesting up to the depth cap, valid generated texts under "
-                "random layouts, the same with one token- or byte-level mutation, random bytes. Oracle, in an isolated worker process (RLIMIT_AS 4 GiB, 20 s + 60 s two-stage watchdog): "
+                "random layouts, the same with one token- or byte-level mutation, valid texts ended right behind a token (with raised weight between items / messages) by a fragment that leaves the lexer in the middle of a string, size, comment, number, name or multi-byte character, random bytes. Oracle, in an isolated worker process (RLIMIT_AS 4 GiB, 20 s + 60 s two-stage watchdog): "
                 "returns normally (no escaping panic, no fatal runtime error, no hang); errors => no messages; valid-by-construction texts without errors return every written message in order; "
                 "every error and warning reads Ln x, Col y: text with the position inside the input. Non-trivial: the input contains a complete SxFy token.",
         "notes": ["operational limits (part of the property's definition here): input <= 64 KiB, address space 4 GiB, watchdog 20 s then 60 s alone in a fresh worker; nesting depth capped (300 quick / 2000 thorough) because parsing is quadratic in depth"],
